@@ -3,6 +3,12 @@ import ast
 import inspect
 
 
+def _flag(cls):
+    prop = cls.propertyDict['export']
+    value = getattr(prop, 'value', None)
+    return bool(prop.default if value is None else value)
+
+
 def generate():
     import frappy.server
     import frappy.dynamic
@@ -17,6 +23,6 @@ def generate():
     assert timeout is not None
     return [
         f'def startTimeout : Nat := {int(timeout)}',
-        f'def pinataExported : Bool := {"true" if frappy.dynamic.Pinata.export.default else "false"}',
-        f'def moduleExported : Bool := {"true" if frappy.modulebase.Module.export.default else "false"}',
+        f'def pinataExported : Bool := {"true" if _flag(frappy.dynamic.Pinata) else "false"}',
+        f'def moduleExported : Bool := {"true" if _flag(frappy.modulebase.Module) else "false"}',
     ]
